@@ -136,6 +136,7 @@ func initProperties() {
 			Decides: "balanced `{}`/`[]` on every success path of the t2j walkers (JSONPAIR — a necessary condition of `never malformed JSON with a nil error`), member keys come from one FieldDescriptor accessor everywhere (KEYSRC), thrift type switches are exhaustive (KINDEXH), unknown fields are an error exactly when disallowed and are otherwise skipped (NEGPOLARITY, UNKNOWNSKIP), no error dropped (DROPERR), loops consume (LOOPPROGRESS).",
 			NotDec:  "comma placement, numeric and string exactness (value-level).",
 			Uses: uses(
+				use("FIELDLISTFIRST", "a response carrying the second declared exception is not converted to {}", nil),
 				use("LASTBYTEPATCH", "no container is closed by overwriting the last byte unconditionally", nil),
 				use("FIELDLOOPEXIT", "a struct is converted to its STOP byte: no field loop is left early", nil),
 				use("B64STD", "binary is written and read in the standard base64 alphabet", nil),
@@ -497,6 +498,7 @@ func initProperties() {
 			Decides: "every name map that is filled is built (BUILDPAIR: without Build every key lookup returns nil), trie/hash Set and Get derive slots through the same helper (SEQAGREE), descriptors are not written after parsing (DESCIMMUT).",
 			NotDec:  "fidelity to the IDL, default values, requiredness under options, the native trie_get/hm_get twins, adversarial keys.",
 			Uses: uses(
+				use("FIELDLISTFIRST", "every declared exception is a field of the response descriptor", nil),
 				use("PROBEMOD", "Get and Set of the name hash map probe with the same modulus", nil),
 				use("INPLACEFILTER", "selecting methods does not overwrite the list still being searched", nil),
 				use("BITMAPLEN", "the requires bitmap of a struct with sparse ids keeps every bit", nil),
